@@ -36,7 +36,7 @@ ASSUMPTIONS = ['entries are small Gaussian integers / dyadic rationals: float ar
                'matrix units as local operator basis: formal sum = dense operator']
 
 N_PROCS = min(12, os.cpu_count() or 1)
-ANCHOR_COVERAGE_NOTE = 'pending'
+ANCHOR_COVERAGE_NOTE = ('coverage round 2026-09-26 (coverage 7.x, quick tier seed 0, real side run in-process, line+branch): C11 alone before -> after: networks/mpo.py 52% -> 81%, algorithms/mps_common.py 34% -> 34% (VariationalApplyMPO only; sweeps are C13/C16), networks/mps.py 24% -> 29% (C07-C09 own the MPS class); C10+C11 combined: mpo.py 55 -> 81, model.py 81 -> 88, terms.py 71 -> 86, exact_diag.py 74 -> 92')
 
 
 def nontrivial(case):
